@@ -39,7 +39,7 @@ def variant_edges(ctx, adt, variant):
 
 
 def run(chk, prog):
-    chk.rules_live = ["R1", "R2", "R3", "R4", "R5"]
+    chk.rules_live = ["R1", "R2", "R3", "R4", "R5", "R6"]
     chk.explanation = (
         "Structural rules over the MIR of the retry state machine: the status values that construct "
         "ErrorClass::FileNotFound are exactly 403/404/410, server errors construct Retryable, the "
@@ -48,7 +48,9 @@ def run(chk, prog):
         "whose result is tries_left > 0 && (has_range_support || next_byte == 0) with the failed try "
         "counted before tries_left is computed and current_try written only by increment (+1); "
         "has_range_support is set only under the Accept-Ranges: bytes test; a Range header is sent "
-        "exactly when next_byte != 0; every chunk passed on is preceded by next_byte += len.")
+        "exactly when next_byte != 0; every chunk passed on is preceded by next_byte += len. R6: "
+        "the stream ends without an error item (Poll::Ready(None)) only where the response body "
+        "itself ended, and `done` is set only there or together with an error item.")
     chk.not_decided = ["ordering/duplication of bytes on the wire", "timing, back-off durations", "server behaviour"]
     chk.assumptions = ["reqwest reports statuses and streams bodies as documented"]
     if prog.body(MAY) is None:
@@ -58,6 +60,7 @@ def run(chk, prog):
     r2_r3_gating(chk, prog)
     r4_offsets(chk, prog)
     r5_budget(chk, prog)
+    r6_who_ends(chk, prog)
 
 
 def r1_classes(chk, prog):
@@ -412,3 +415,63 @@ def r5_budget(chk, prog):
     if pn:
         cnt = sum(1 for b in body_family(prog, pn[0].path) for bb, t in b.calls() if t.is_call_to(PNR))
         chk.require(cnt == 1, "R5", "tough::http::RetryStream::poll_next", "one-unguarded-request", "poll_next issues %d unguarded requests" % cnt)
+
+
+def r6_who_ends(chk, prog):
+    """'if it ends without error the resource was delivered completely': who may produce the
+    successful end of the stream"""
+    fam = [b for b in prog.bodies.values() if "tough::http::RetryStream" in b.path and "/.cargo/" not in b.file
+           and not b.path.startswith("<tough::http::RetryStream as core::fmt::Debug>")]
+    chk.floor("R6-bodies", len(fam), 5, "bodies of the RetryStream state machine")
+    n_end = n_done = 0
+    for b in fam:
+        ctx = ctx_of(prog, b.path)
+        chk.analysed_body(b)
+        f = ctx.fn
+        # the inner body stream's own end
+        inner_end = []
+        for bb, t in ctx.calls("futures_core::stream::Stream::poll_next"):
+            inner_end.extend(ctx.track_call(bb).neg_edges(1))
+        # the `done` latch of poll_next
+        done_true = []
+        for blk in b.blocks:
+            if blk.cleanup or blk.term is None or blk.term.k != "switch":
+                continue
+            og = ctx.origins.of_operand(blk.term.discr)
+            if og and all(o.fields[-1:] == ("done",) for o in og):
+                for v, d in blk.term.tv:
+                    if v != 0:
+                        done_true.append((blk.idx, d, v))
+                if any(v == 0 for v, _ in blk.term.tv):
+                    done_true.append((blk.idx, blk.term.otherwise, "otherwise"))
+        errs = [bb for bb, t in ctx.calls("tough::transport::TransportError::new_with_cause", RS + "poll_err",
+                                          "core::convert::Into::into", "core::convert::From::from")
+                if t.is_call_to("tough::transport::TransportError::new_with_cause", RS + "poll_err")
+                or "TransportError" in " ".join(t.generic_args)]
+        rets = [blk.idx for blk in b.blocks if not blk.cleanup and blk.term is not None and blk.term.k == "return"]
+        for blk in b.blocks:
+            if blk.cleanup:
+                continue
+            for s_ in blk.stmts:
+                if s_.k == "assign" and s_.rv.k == "agg" and s_.rv.j.get("variant") == "Ready" and s_.rv.ops:
+                    og = ctx.origins.of_operand(s_.rv.ops[0])
+                    if og and any(o.kind == "agg" and str(o.key[2]).endswith("Option::None") for o in og):
+                        n_end += 1
+                        allowed = inner_end + done_true
+                        p = ctx.cfg.witness_path([blk.idx], allowed)
+                        chk.require(bool(allowed) and p is None, "R6", f, "ends-only-when-body-ended",
+                                    "the stream can end WITHOUT an error item on a path where the response body had not "
+                                    "ended (and `done` was not already set): a caller would take a partial resource for "
+                                    "complete", site_of(s_.sp), path=ctx.describe_path(p))
+                if s_.k == "assign" and s_.place.fields()[-1:] == ("done",) and s_.rv.ops and s_.rv.ops[0].is_const \
+                        and s_.rv.ops[0].const_int == 1:
+                    n_done += 1
+                    if b.path == RS + "poll_err":
+                        continue
+                    p1 = ctx.cfg.witness_path([blk.idx], inner_end) if inner_end else [0]
+                    p2 = ctx.cfg.witness_path(rets, (), starts=[blk.idx], removed_blocks=errs) if errs else [0]
+                    chk.require(p1 is None or p2 is None, "R6", f, "done-only-at-end-or-with-error",
+                                "`done` is set although neither the response body ended nor an error item is returned",
+                                site_of(s_.sp), path=ctx.describe_path(p2 if p2 else p1))
+    chk.floor("R6-ends", n_end, 1, "Poll::Ready(None) constructions")
+    chk.floor("R6-done", n_done, 3, "`done = true` sites (poll_err, end of body, file not found)")
